@@ -135,7 +135,8 @@ fn main() {
             let pool = spec.get("pool").and_then(serde_json::Value::as_u64).unwrap_or(0) as usize;
             let env = one_env(prop, tier, pool);
             let t0 = Instant::now();
-            let rep = prop.exec(&spec, &env);
+            let mut rep = prop.exec(&spec, &env);
+            rep.normalize();
             println!("{}", serde_json::to_string_pretty(&serde_json::json!({"spec": spec, "wall_ms": t0.elapsed().as_millis() as u64, "report": rep})).unwrap());
             let _ = std::fs::remove_dir_all(&env.tmp);
         }
@@ -150,7 +151,8 @@ fn main() {
             let spec: serde_json::Value = serde_json::from_str(&std::fs::read_to_string(&args[4]).expect("spec file")).expect("spec json");
             let pool = spec.get("pool").and_then(serde_json::Value::as_u64).unwrap_or(0) as usize;
             let env = one_env(prop, tier, pool);
-            let rep = prop.exec(&spec, &env);
+            let mut rep = prop.exec(&spec, &env);
+            rep.normalize();
             common::dbg_dump();
             println!("{}", serde_json::to_string_pretty(&serde_json::json!({"spec": spec, "report": rep})).unwrap());
             let _ = std::fs::remove_dir_all(&env.tmp);
@@ -172,7 +174,8 @@ fn main() {
             let prop = props::by_id(&rf.property).expect("property");
             let mut env = one_env(prop, Tier::parse(&rf.tier), rf.pool);
             env.replaying = true;
-            let rep = prop.exec(&rf.spec, &env);
+            let mut rep = prop.exec(&rf.spec, &env);
+            rep.normalize();
             let _ = std::fs::remove_dir_all(&env.tmp);
             let same = rep.violations.iter().any(|v| v.fingerprint == rf.fingerprint);
             if !quiet {
